@@ -278,9 +278,29 @@ def check_case(case, acc):
                 continue
             if got.shape != train[idx2].shape or not np.allclose(got, train[idx2], rtol=1e-9, atol=1e-12, equal_nan=True):
                 problems.setdefault(("rows-reproduced", "chained"), f"{f!r} ({variant}): {which} evaluated on rows {idx1}, then that result on rows {idx2}, differs from the training rows")
+    # what the design hands out belongs to the caller: the copy made by np.array(matrix), the data-frame view and the lists of
+    # levels may be overwritten / reordered without any effect on the design
+    for which, M, train in mats:
+        acc.calls += 1
+        try:
+            A = np.array(M)
+            if A.flags.writeable:
+                A[...] = -3
+            if which == "common":
+                view = M.as_dataframe()
+                view.iloc[:, :] = view.to_numpy() * 0 - 7
+            for t in M.terms.values():
+                for obj in (getattr(t, "levels", None), getattr(getattr(t, "factor", None), "levels", None), getattr(getattr(t, "expr", None), "levels", None), getattr(t, "groups", None) if False else None):
+                    if isinstance(obj, list) and len(obj) > 1:
+                        obj.reverse()
+            got = np.asarray(M.evaluate_new_data(df).design_matrix, dtype=float)
+            if got.shape != train.shape or not np.allclose(got, train, rtol=1e-9, atol=1e-12, equal_nan=True):
+                problems.setdefault(("rows-reproduced", "after-caller-edits"), f"{f!r} ({variant}): after the caller overwrote its copy np.array({which}), the data-frame view and reversed the lists of levels it was handed, {which}.evaluate_new_data on the training frame differs from the training rows")
+        except Exception as e:
+            problems.setdefault(("rows-reproduced", "after-caller-edits-" + exc_sig(e)), f"{f!r} ({variant}): editing what the design handed out / evaluating afterwards raised {type(e).__name__}: {e}")
     for which, M, train in mats:
         if not np.array_equal(np.asarray(M.design_matrix, dtype=float), train, equal_nan=True):
-            problems.setdefault(("training-unchanged", "values"), f"{f!r} ({variant}): training {which} matrix changed after evaluating new data")
+            problems.setdefault(("training-unchanged", "values"), f"{f!r} ({variant}): training {which} matrix changed after evaluating new data (or after the caller edited its own copies)")
     acc.subcases(case, nframes - 1, True, "new-frames")
     nontriv = any(t in f for t in ("center", "scale", "standardize", "bs(", "poly", "minmax", "C(", "T(", "S(", "f", "o", "g"))
     if problems:
